@@ -158,6 +158,9 @@ func lastN(l []string, n int) []string {
 
 // oneTree plans a random tree on top of the current tip (or a few blocks below it) and delivers it.
 func OneTree(s *chainsim.Sim, run *vlib.Run, r *vlib.Rand, tno int) bool {
+	if WorkMode && r.Intn(2) == 0 {
+		return workDuel(s, run, r)
+	}
 	if r.Intn(4) == 0 {
 		return tiePrefixPattern(s, run, r)
 	}
@@ -367,6 +370,66 @@ func tiePrefixPattern(s *chainsim.Sim, run *vlib.Run, r *vlib.Rand) bool {
 	}
 	run.Inc("pattern_trees/failed-reorg-with-tied-prefix")
 	run.Distinct("tree_shapes", "pattern-tie-prefix", k, bFirst)
+	run.Inc("trees")
+	return true
+}
+
+// workDuel (work mode only): two branches from one fork point whose blocks carry different work - one made mostly of
+// minimum-difficulty blocks (more than 20 minutes after the parent), one mostly of real-difficulty blocks (4x the work
+// each). The first is delivered completely, then the second block by block, so the node has to weigh a candidate tip
+// that is lower / equal / higher than its own tip against blocks of other difficulty: the shorter-but-heavier branch
+// must win, the longer-but-lighter one must not. The reference decides by cumulative work after every delivery.
+func workDuel(s *chainsim.Sim, run *vlib.Run, r *vlib.Rand) bool {
+	g := s.G
+	fork := s.Ref.Tip
+	build := func(n int, minDiffOdds int) ([]*refchain.Block, *refchain.Node) { // minDiffOdds of 8
+		var l []*refchain.Block
+		par := fork
+		for i := 0; i < n; i++ {
+			if r.Intn(8) < minDiffOdds {
+				g.NextGap = 1201 + uint32(r.Intn(600))
+			} else {
+				g.NextGap = 300 + uint32(r.Intn(600))
+			}
+			b := g.RandomBlock(par, 2)
+			g.NextGap = 0
+			l = append(l, b)
+			par = g.PlanNode(b, par)
+		}
+		return l, par
+	}
+	light, lt := build(2+r.Intn(7), 7)
+	heavy, ht := build(1+r.Intn(4), 1)
+	first, second, fam1, fam2 := light, heavy, "duel/light-branch-first", "duel/heavy-branch-second"
+	if r.Intn(3) == 0 {
+		first, second, fam1, fam2 = heavy, light, "duel/heavy-branch-first", "duel/light-branch-second"
+	}
+	for _, b := range first {
+		if _, _, ok := s.Offer(b, fam1); !ok {
+			return false
+		}
+	}
+	for _, b := range second {
+		if _, _, ok := s.Offer(b, fam2); !ok {
+			return false
+		}
+	}
+	w, l := ht, lt // w: the branch with more work
+	if ht.Work.Cmp(lt.Work) < 0 {
+		w, l = lt, ht
+	}
+	switch {
+	case w.Work.Cmp(l.Work) == 0:
+		run.Inc("duels_equal_work")
+	case w.Height < l.Height:
+		run.Inc("duels_shorter_branch_is_heavier")
+	case w.Height == l.Height:
+		run.Inc("duels_equal_height_different_work")
+	default:
+		run.Inc("duels_longer_branch_is_heavier")
+	}
+	run.Inc("pattern_trees/work-duel")
+	run.Distinct("tree_shapes", "work-duel", len(light), len(heavy), fam1)
 	run.Inc("trees")
 	return true
 }
